@@ -18,37 +18,43 @@ Lemma forallb_zseq (P : Z -> bool) n : forallb P (zseq n) = true -> forall a, 0 
 Proof. intros H a Ha. rewrite forallb_forall in H. apply H. apply in_zseq. exact Ha. Qed.
 
 (* all 64 six-bit colours against the closed formula with the full-scale maps 0,10,20,31 / 0,21,42,63 *)
+Lemma colour_sweep : forallb (fun c => oled_color c =? rgb565_of_6bit c) (zseq 64) = true.
+Proof. vm_compute. reflexivity. Qed.
+
 Theorem colour565 : forall c, 0 <= c < 64 -> oled_color c = rgb565_of_6bit c.
-Proof.
-  intros c Hc.
-  assert (H : forallb (fun c => oled_color c =? rgb565_of_6bit c) (zseq 64) = true) by (vm_compute; reflexivity).
-  apply (forallb_zseq _ 64 H) in Hc. lia.
-Qed.
+Proof. intros c Hc. pose proof (forallb_zseq _ 64 colour_sweep c Hc) as H. cbv beta in H. lia. Qed.
 
 Lemma colour565_range c : colour16_ok (oled_color c).
 Proof. unfold oled_color, colour16_ok, wrap16. apply Z.mod_pos_bound. lia. Qed.
 
-(* all 65536 RGB565 colours: the 8-bit grey of RGB16BitToGray (no uint16/uint32 wrap occurs) has
-   the documented luma in its high nibble *)
+(* all 65536 RGB565 colours (256 x 256): the 8-bit grey of RGB16BitToGray (no uint16/uint32 wrap
+   occurs) has the documented luma in its high nibble *)
+Lemma gray_sweep :
+  all_rect 0 0 256 256 (fun lo hi =>
+    let g := rgb16_to_gray (hi * 256 + lo) in
+    (g / 16 =? luma_nibble (hi * 256 + lo)) && (0 <=? g) && (g <? 256)) = true.
+Proof. vm_compute. reflexivity. Qed.
+
 Theorem gray_luma : forall c, colour16_ok c -> rgb16_to_gray c / 16 = luma_nibble c /\ 0 <= rgb16_to_gray c < 256.
 Proof.
-  intros c Hc.
-  assert (H : all_from (Z.to_nat 65536) 0 (fun c => (rgb16_to_gray c / 16 =? luma_nibble c) && (0 <=? rgb16_to_gray c) && (rgb16_to_gray c <? 256)) = true)
-    by (vm_compute; reflexivity).
-  assert (En : Z.of_nat (Z.to_nat 65536) = 65536) by (apply Z2Nat.id; discriminate).
-  remember (Z.to_nat 65536) as n eqn:Hn. clear Hn.
-  pose proof (proj1 (all_from_true _ _ _) H c) as H1. cbv beta in H1.
-  rewrite En in H1. unfold colour16_ok in Hc. specialize (H1 ltac:(lia)). lia.
+  intros c Hc. unfold colour16_ok in Hc.
+  assert (A : 0 <= c mod 256 < 0 + 256) by lia. assert (B : 0 <= c / 256 < 0 + 256) by lia.
+  pose proof (all_rect_elim _ _ _ _ _ gray_sweep _ _ A B) as H1.
+  cbv beta zeta in H1. replace (c / 256 * 256 + c mod 256) with c in H1 by lia.
+  generalize dependent (rgb16_to_gray c). generalize (luma_nibble c). intros. lia.
 Qed.
 
 (* packing two nibbles: all 256 x 256 byte pairs *)
+Lemma nibble_sweep :
+  all_rect 0 0 256 256 (fun g g' =>
+    let b := Z.lor (Z.land g 240) (Z.land (Z.shiftr g' 4) 15) in (b / 16 =? g / 16) && (b mod 16 =? g' / 16)) = true.
+Proof. vm_compute. reflexivity. Qed.
+
 Lemma nibble_pack : forall g g', 0 <= g < 256 -> 0 <= g' < 256 ->
   let b := Z.lor (Z.land g 240) (Z.land (Z.shiftr g' 4) 15) in b / 16 = g / 16 /\ b mod 16 = g' / 16.
 Proof.
   intros g g' Hg Hg'.
-  assert (H : all_rect 0 0 256 256 (fun g g' =>
-              let b := Z.lor (Z.land g 240) (Z.land (Z.shiftr g' 4) 15) in (b / 16 =? g / 16) && (b mod 16 =? g' / 16)) = true)
-    by (vm_compute; reflexivity).
-  pose proof (all_rect_elim _ _ _ _ _ H g g' ltac:(lia) ltac:(lia)) as H2. cbv beta zeta in H2. cbv zeta. lia.
+  assert (A : 0 <= g < 0 + 256) by lia. assert (B : 0 <= g' < 0 + 256) by lia.
+  pose proof (all_rect_elim _ _ _ _ _ nibble_sweep _ _ A B) as H2. cbv beta zeta in H2. cbv zeta.
+  generalize dependent (Z.lor (Z.land g 240) (Z.land (Z.shiftr g' 4) 15)). intros. lia.
 Qed.
-
